@@ -1280,6 +1280,11 @@ pub trait ClientAccountStorage:
             .remove_folder_password(folder_id)
             .await?;
 
+        #[cfg(sos_verif)]
+        sos_core::verif_probe::hit(
+            "client_delete_folder:after_remove_password",
+        );
+
         let account_event = AccountEvent::DeleteFolder(*folder_id);
 
         if apply_event {
